@@ -88,7 +88,15 @@ func (c *CmdShell) Go(ctx context.Context) error {
 
 	/* Start the process going. */
 	var eg errgroup.Group
-	eg.Go(func() error { return c.cmd.Run() })
+	eg.Go(func() error {
+		if err := c.cmd.Start(); nil != err {
+			return err
+		}
+		/* Don't reap the process, which closes our ends of its output
+		pipes, before everything it wrote has been read. */
+		peg.Wait()
+		return c.cmd.Wait()
+	})
 	eg.Go(func() error { return c.outw.CloseWithError(peg.Wait()) })
 
 	/* Wait until everything finishes. */
